@@ -364,6 +364,11 @@ class RaisesObligation(Obligation):
         return res
 
 
+def _pyvc_unsupported():
+    from . import pyvc
+    return pyvc.Unsupported
+
+
 class FnObligation(Obligation):
     """an obligation decided by a custom procedure returning a Result-like dict"""
 
@@ -377,7 +382,7 @@ class FnObligation(Obligation):
         try:
             out = self.fn(seed)
             res.update(out)
-        except JI.Unsupported as e:
+        except (JI.Unsupported, _pyvc_unsupported()) as e:
             res["status"] = "undecided"
             res["detail"] = f"unsupported: {e}"
         except Exception:
